@@ -825,6 +825,16 @@ func execOp(p *Prepared) (out *Outcome) {
 			}
 		}
 	}
+	// now and then a full garbage collection (twice, so that finalizers get
+	// their turn) before looking at the earlier results again: a finalizer
+	// attached to the wrong object scrubs memory the caller still holds
+	if stabilityRing != nil && op.Seed%512 == 3 {
+		runtime.GC()
+		runtime.GC()
+		for i := 0; i < 50; i++ {
+			runtime.Gosched()
+		}
+	}
 	// what earlier calls returned belongs to their callers: it must still be
 	// what it was (sequential engines; the concurrency engine checks this at
 	// the end of each episode)
